@@ -6,6 +6,9 @@ to a depth x all tie-breaks.  Three monitors evaluated on every reached state:
   stop-safety - Stop only for started, unfinished, not yet stopped actions; an unfinished
                 started action no listening flow holds any more must have got exactly one Stop
   activation  - listening instance of an activated flow exists <=> one of its activators runs
+                (flows with the start_new_flow_instance label behind their first waiting statement: instances that
+                passed the label run next to their successor; a flow that executed `deactivate` is no activator any more)
+Further families (label-started instances, deactivate, flows reacting to returning Start / Stop events): vf/props/c06_more.py
 """
 from __future__ import annotations
 
@@ -31,10 +34,17 @@ class Lifetime:
     """Generic monitors; `activators` = {activated flow name: [flow names that activate it
     with an `activate` as their first statements]} (static, from the generator)."""
 
-    def __init__(self, activators=None, once_actions=None, main_restarts=False):
+    def __init__(self, activators=None, once_actions=None, main_restarts=False, label_flows=None, gave_up=None):
         self.activators = activators or {}
         self.once_actions = once_actions or {}  # action name -> activated flow that must run once
         self.main_restarts = main_restarts
+        # activated flow -> True when its `start_new_flow_instance:` label stands after the first waiting statement
+        # (the next instance is then started when the label is passed, the passing instance goes on in parallel),
+        # False when it stands before it (the early start is refused; the flow restarts when the instance ends)
+        self.label_flows = label_flows or {}
+        # activator flow -> marker event it sends right after its `deactivate <flow>` statement: from then on it
+        # does not count as an activator any more (static, from the generator)
+        self.gave_up = gave_up or {}
 
     def __call__(self, ex, prev, aev, conc, taken, nxt, pops):
         st = nxt.state
@@ -46,6 +56,7 @@ class Lifetime:
                 s, k, f, n = acts[u]
                 acts[u] = (s, k, True, n)
         fin_before = {u for u, v in acts.items() if v[2]}
+        started_now, stopped_now = set(), set()
         # -- output: Start / Stop events
         for e in st.outgoing_events:
             t = e["type"]
@@ -56,6 +67,7 @@ class Lifetime:
                 if u in acts and acts[u][0]:
                     raise Violation("action-started-twice", f"{t} emitted twice for one action", {"event": t})
                 acts[u] = (True, 0, False, t[5:])
+                started_now.add(u)
                 ex.stats.bump("action_starts")
             elif t.startswith("Stop") and t.endswith("Action"):
                 ex.stats.bump("action_stops")
@@ -65,7 +77,14 @@ class Lifetime:
                 if f:
                     raise Violation("stop-for-finished-action", f"{t} for an action whose Finished event had already been received", {"event": t})
                 if k >= 1:
+                    if v2x.FEED_BACK[0] and u in started_now and u in stopped_now:
+                        # history class: the action was stopped in the very step that started it, i.e. before its Start
+                        # event came back as an input event (process_events feeds emitted events back)
+                        raise Violation("action-stopped-twice:start-event-returns-after-first-stop",
+                                        f"{t} emitted a second time: the first Stop was sent in the step that started the action, "
+                                        "then the Start event came back as an input event and a flow holding the action ended", {"event": t})
                     raise Violation("action-stopped-twice", f"{t} emitted a second time", {"event": t})
+                stopped_now.add(u)
                 acts[u] = (s, k + 1, f, n)
         # -- every started, unfinished, unstopped action must still be held by a listening flow
         holders: dict[str, int] = {}
@@ -128,22 +147,51 @@ class Lifetime:
                                     f"{par.flow_id} is {par.status.name}", {"flow": fs.flow_id, "ancestor": par.flow_id})
                 cur = par
         # -- activation
+        gaveup = set(prev.aux.get("gaveup", ()))
+        if self.gave_up:
+            types = {e["type"] for e in st.outgoing_events}
+            for a, marker in self.gave_up.items():
+                if marker in types:
+                    gaveup.add(a)
+            nxt.aux["gaveup"] = tuple(sorted(gaveup))
+            if gaveup:
+                ex.stats.bump("states_after_a_deactivate_statement")
         for g, acs in self.activators.items():
             alive = False
             for a in acs:
+                if a in gaveup:
+                    continue
                 for inst in st.flow_id_states.get(a, []):
                     if running(inst) or (a == "main" and inst.status != FlowStatus.WAITING):
                         alive = True
             insts = [f for f in st.flow_id_states.get(g, []) if listening(f)]
+            # which of the other activators gave their activation up with `deactivate` (history class of the signature)
+            after = ""
+            if gaveup & set(acs):
+                still = [a for a in sorted(gaveup & set(acs)) if any(running(i) for i in st.flow_id_states.get(a, []))]
+                # history classes: the flow that executed `deactivate` still runs / has ended since
+                after = ":after-deactivate-by-another-activator" if still else ":after-end-of-an-activator-that-had-deactivated"
             if alive and len(insts) == 0:
-                raise Violation("activated-flow-not-running",
-                                f"flow {g} is activated by a running flow of {acs} but has no running instance", {"flow": g})
-            if alive and len(insts) > 1:
+                raise Violation("activated-flow-not-running" + after,
+                                f"flow {g} is activated by a running flow of {[a for a in acs if a not in gaveup]} but has no running instance"
+                                + (f" (after {sorted(gaveup)} executed `deactivate {g}`)" if after else ""), {"flow": g})
+            if g in self.label_flows and self.label_flows[g]:
+                # label after the first waiting statement: instances that passed the label go on in parallel with their
+                # successor; at most one instance may be waiting in front of the label
+                lab = st.flow_configs[g].element_labels["start_new_flow_instance"]
+                fresh = [f for f in insts if all(h.position <= lab for h in f.heads.values())]
+                if len(insts) > 1:
+                    ex.stats.bump("states_with_label_started_instance_next_to_its_predecessor")
+                if alive and len(fresh) > 1:
+                    raise Violation("activated-flow-duplicated",
+                                    f"activated flow {g} has {len(fresh)} running instances in front of its start_new_flow_instance label", {"flow": g})
+            elif alive and len(insts) > 1:
                 raise Violation("activated-flow-duplicated",
                                 f"activated flow {g} has {len(insts)} running instances", {"flow": g})
             if not alive and insts:
                 raise Violation("activated-flow-outlives-activators",
-                                f"flow {g} still has a running instance although no activator ({acs}) runs", {"flow": g})
+                                f"flow {g} still has a running instance although no activator ({acs}) runs"
+                                + (f" ({sorted(gaveup)} executed `deactivate {g}`)" if gaveup & set(acs) else ""), {"flow": g})
             if alive:
                 ex.stats.bump("states_with_live_activation")
         for an, g in self.once_actions.items():
@@ -390,7 +438,8 @@ def explore(task):
                 evs.append(("act", k, "Started", {}))
         return evs
 
-    mon = Lifetime(activators, once)
+    opts = task[9] if len(task) > 9 else {}
+    mon = Lifetime(activators, once, label_flows=opts.get("label_flows"), gave_up=opts.get("gave_up"))
     ex = Explorer(src, alphabet, monitors=[mon], depth=depth, max_states=60000)
     try:
         ex.run()
@@ -534,6 +583,11 @@ def tasks(tier):
     for i, (src, act, once, evs, ints, info) in enumerate(t1_programs(tier)):
         if i % (6 if tier == "quick" else 2) == 0:
             out.append((src, act, once, evs, ints, dict(info, emitted_events_fed_back=True), d[0], False, True))
+    # label-started instances of activated flows, `deactivate`, flows reacting to returning Start / Stop events
+    from vf.props import c06_more
+    for gen, depth, fb in ((c06_more.t10_programs, d[2], False), (c06_more.t11_programs, d[2], False), (c06_more.t12_programs, d[0] - 1, True), (c06_more.t13_programs, d[0], False)):
+        for src, act, once, evs, ints, info, opts in gen(tier):
+            out.append((src, act, once, evs, ints, dict(info, emitted_events_fed_back=True) if fb else info, depth, False, fb, opts))
     if tier == "thorough":
         for i, (src, act, once, evs, ints, info) in enumerate(t1_programs(tier)):
             if i % 4 == 0:
@@ -556,6 +610,14 @@ def run(rep, tier):
         "T4 (when / await-group scopes); every slot combination enumerated",
         "histories: all sequences over {E1..E4, Finished of each pending action (first 3), StopFlow of the parent} up to the depth in the evidence; all tie-breaks",
         "activators are known statically (activate statements come first in a flow)",
+        "T10: activated flows with the start_new_flow_instance label (8 label positions: in front of / behind the first waiting statement, "
+        "behind the second, last statement) x {one activator, two, main, nested activation} x {finish, abort}; an instance that passed a label "
+        "behind its first waiting statement legitimately runs next to its successor (at most one instance in front of the label)",
+        "T11: `deactivate g` by one activator (alone / next to a second one / main), g with and without the label; the flow that executed "
+        "`deactivate` (marker event sent right after it) no longer counts as an activator",
+        "T12 (emitted events fed back as process_events does): action held in a when / await-group scope that is closed in the step that starts "
+        "the action x a parent / sibling reacting to the returning Start or Stop event by ending the holder",
+        "T13: the main flow itself ends (finish / abort) while flows and actions it started - earlier or by its last statement - are running",
     ]
     run_e1(rep, me, tier, budget_s=None if tier == "quick" else 1500)
     for r in par_pmap_once(param_activation_part):
